@@ -1,0 +1,61 @@
+//go:build verif && (verif_all || verif_c01 || verif_c06)
+// +build verif
+// +build verif_all verif_c01 verif_c06
+
+package gocql
+
+// Verification hooks (build tag `verif`) for C01, round 6: the connection's OWN requests (the heartbeat's
+// OPTIONS, `USE`, PREPARE on behalf of executions, REGISTER) on the bare connection of verif_export_c06b.go,
+// so that they share the stream-id space with user requests (Conn.exec) while the harness scripts the peer.
+// Add-only thin wrappers; the heartbeat is the REAL Conn.heartBeat started exactly as Conn.init starts it.
+
+import (
+	"context"
+	"errors"
+
+	"github.com/gocql/gocql/internal/lru"
+)
+
+// OwnSetup gives the stand-in session / connection the fields the driver-originated requests read
+// (prepared-statement cache, host id, consistency). Call once, before any request.
+func (v *VerifC06Conn) OwnSetup() {
+	v.sess.stmtsLRU = &preparedLRU{lru: lru.New(64)}
+	v.sess.cons = One
+	v.c.host = &HostInfo{hostId: "verif-host"}
+}
+
+// StartHeartbeat starts Conn.heartBeat as Conn.init does (`go c.heartBeat(ctx)` with the connection's context).
+func (v *VerifC06Conn) StartHeartbeat() { go v.c.heartBeat(v.c.ctx) }
+
+// UseKeyspace is Conn.UseKeyspace.
+func (v *VerifC06Conn) UseKeyspace(ks string) error { return v.c.UseKeyspace(ks) }
+
+// Prepare is Conn.prepareStatement (the PREPARE a bound execution issues first).
+func (v *VerifC06Conn) Prepare(ctx context.Context, stmt string) error {
+	_, err := v.c.prepareStatement(ctx, stmt, nil)
+	return err
+}
+
+// Register is controlConn.registerEvents on this connection.
+func (v *VerifC06Conn) Register() error {
+	cc := &controlConn{session: v.sess}
+	return cc.registerEvents(v.c)
+}
+
+// VerifC01dErrInfo: is err (or what it wraps) a frame of the peer handed out as an error value? If so its
+// stream id, error code and message.
+func VerifC01dErrInfo(err error) (isFrame bool, stream, code int, msg string) {
+	var re RequestError
+	if !errors.As(err, &re) {
+		var pe *protocolError
+		if errors.As(err, &pe) && pe.frame != nil {
+			return true, pe.frame.Header().stream, -1, pe.Error()
+		}
+		return false, 0, 0, ""
+	}
+	stream = -2
+	if f, ok := re.(frame); ok {
+		stream = f.Header().stream
+	}
+	return true, stream, re.Code(), re.Message()
+}
